@@ -6,6 +6,8 @@ package couchbase
 // Stream request (C02), server-requested rollback (C08), request/callback protocol (C20).
 
 //@ func (*client).OpenStream$1
+//@ freevars observer opm ch
+//@ params failOverLogs err
 //@ props C06 C08 C20
 //@ nonblocking
 //@ requires opm != nil && typeis(opm, "*asyncOp") && as(opm, "*asyncOp").signal != nil && chsent(as(opm, "*asyncOp").signal) - chrecvd(as(opm, "*asyncOp").signal) < chcap(as(opm, "*asyncOp").signal) && !chclosed(as(opm, "*asyncOp").signal)
@@ -19,6 +21,8 @@ package couchbase
 //@ modifies chan(ch), chan(as(opm, "*asyncOp").signal), calls(couchbase.AsyncOp.Resolve), calls(couchbase.Observer.SetVbUUID)
 
 //@ func (*client).openStreamWithRollback$1
+//@ freevars observer failedSeqNo opm ch
+//@ params failOverLogs err
 //@ props C06 C08 C20
 //@ nonblocking
 //@ requires opm != nil && typeis(opm, "*asyncOp") && as(opm, "*asyncOp").signal != nil && chsent(as(opm, "*asyncOp").signal) - chrecvd(as(opm, "*asyncOp").signal) < chcap(as(opm, "*asyncOp").signal) && !chclosed(as(opm, "*asyncOp").signal)
@@ -33,6 +37,7 @@ package couchbase
 //@ modifies chan(ch), chan(as(opm, "*asyncOp").signal), calls(couchbase.AsyncOp.Resolve), calls(couchbase.Observer.SetVbUUID), calls(couchbase.Observer.SetCatchup)
 
 //@ func (*client).openStreamWithRollback
+//@ params s vbID failedSeqNo rollbackSeqNo latestSeqNo observer openStreamOptions
 //@ props C08 C20
 //@ requires s != nil && s.dcpAgent != nil
 //@ let K = 0
@@ -55,6 +60,7 @@ package couchbase
 //@ modifies calls("gocbcore.(*DCPAgent).OpenStream"), calls("couchbase.(*client).GetFailOverLogs"), calls("gocbcore.(*DCPAgent).GetFailoverLog"), calls(couchbase.AsyncOp.Wait), calls(gocbcore.PendingOp.Cancel), calls(select.case)
 
 //@ func (*client).OpenStream
+//@ params s vbID collectionIDs offset observer
 //@ props C02 C06 C08 C20
 //@ requires s != nil && s.dcpAgent != nil && offset != nil && offset.SnapshotMarker != nil
 //@ let cb = darg("gocbcore.(*DCPAgent).OpenStream", 0, cb)
@@ -73,6 +79,8 @@ package couchbase
 //@ modifies calls("gocbcore.(*DCPAgent).OpenStream"), calls("couchbase.(*client).openStreamWithRollback"), calls("couchbase.(*client).GetFailOverLogs"), calls("gocbcore.(*DCPAgent).GetFailoverLog"), calls("gocbcore.(*DCPAgent).HasCollectionsSupport"), calls(couchbase.AsyncOp.Wait), calls(gocbcore.PendingOp.Cancel), calls(select.case)
 
 //@ func (*client).Ping$1
+//@ freevars pingResult opm errorCh
+//@ params result err
 //@ props C20
 //@ nonblocking
 //@ requires opm != nil && typeis(opm, "*asyncOp") && as(opm, "*asyncOp").signal != nil && chsent(as(opm, "*asyncOp").signal) - chrecvd(as(opm, "*asyncOp").signal) < chcap(as(opm, "*asyncOp").signal) && !chclosed(as(opm, "*asyncOp").signal)
@@ -85,6 +93,7 @@ package couchbase
 //@ modifies chan(errorCh), chan(as(opm, "*asyncOp").signal), calls(couchbase.AsyncOp.Resolve), fields(fvcell("pingResult"))
 
 //@ func (*client).Ping
+//@ params s
 //@ props C19 C20
 //@ requires s != nil && s.agent != nil && s.config != nil
 //@ let cb = arg("gocbcore.(*Agent).Ping", 0, cb)
@@ -95,6 +104,8 @@ package couchbase
 //@ modifies calls("gocbcore.(*Agent).Ping"), calls(couchbase.AsyncOp.Wait), calls(gocbcore.PendingOp.Cancel), calls(select.case)
 
 //@ func (*client).GetVBucketSeqNos$1$1$1
+//@ freevars seqNos opm ch
+//@ params entries err
 //@ props C20
 //@ nonblocking
 //@ requires opm != nil && typeis(opm, "*asyncOp") && as(opm, "*asyncOp").signal != nil && chsent(as(opm, "*asyncOp").signal) - chrecvd(as(opm, "*asyncOp").signal) < chcap(as(opm, "*asyncOp").signal) && !chclosed(as(opm, "*asyncOp").signal)
@@ -108,6 +119,7 @@ package couchbase
 //@ modifies chan(ch), chan(as(opm, "*asyncOp").signal), calls(couchbase.AsyncOp.Resolve), content(seqNos)
 
 //@ func (*client).GetVBucketSeqNos$1$1
+//@ freevars hasCollectionSupport collectionIDs j s i seqNos
 //@ props C20
 //@ requires s != nil && s.dcpAgent != nil && seqNos != nil
 //@ let cb = arg("gocbcore.(*DCPAgent).GetVbucketSeqnos", 0, cb)
